@@ -1,4 +1,5 @@
 import HexVerif.Xcmp.Compile
+import HexVerif.Lemmas.XcmpV1
 import Drivers.Util
 /-!
   Line-protocol driver for the Lean model of xcmp (`Xcmp.stages`, `Xcmp.compile`); mirrors
@@ -8,7 +9,9 @@ import Drivers.Util
           copied below)
   output: `I=<x> L=<x> O=<x> S=<x> B=<x>`: the intermediate, lowered and optimised directive
           listings, the assembly listing and the binary file, each as hex of the emitted bytes
-          ("-" when empty) or `!<exception class>`.  Listings are printed one directive per line
+          ("-" when empty) or `!<exception class>`; then `V=<x>`: `-` when the program is outside the
+          class V1 (`C01s.isV1`), else 1/0 = the reflective check `C01s.v1Ok` of the whole-program
+          theorem `C01_v1_partial` passes / fails.  Listings are printed one directive per line
           without the column padding and blank lines of the C++ (the runner strips those from the
           real output); assembly listing lines are `<offset> <text> (<n> bytes)` with a decimal offset.
 -/
@@ -144,10 +147,14 @@ def asmListing (ds : List Dir) (img : Image) : String :=
   let total := ls.foldl (fun acc l => acc + l.2.2) 0
   joinLines (ls.map (fun l => s!"{l.1} {l.2.1} ({l.2.2} bytes)") ++ [s!"{total} bytes"])
 
+def v1Field (P : X.Program) : String :=
+  if C01s.isV1 P then (if C01s.v1Ok P then "1" else "0") else "-"
+
 def handle (line : String) : String :=
   match parseProgram line with
   | .error w => "bad-input " ++ w
   | .ok P =>
+    (fun r => r ++ " V=" ++ v1Field P) <|
     match stages P with
     | .error e => let c := "!" ++ e.className; s!"I={c} L={c} O={c} S={c} B={c}"
     | .ok s =>
